@@ -206,7 +206,8 @@ Qed.
 (* one block with blank / comment lines inserted anywhere in its body (not for ~Other, whose
    blank lines are content) *)
 Definition skip_ins_block (b b' : block) : Prop :=
-  fst b = fst b' /  match section_type (strip (fst b)) with
+  fst b = fst b' /\
+  match section_type (strip (fst b)) with
   | TOther => snd b = snd b'
   | _ => ins_lines (fun x => is_skip x = true) (snd b) (snd b')
   end.
@@ -222,7 +223,7 @@ Qed.
 Lemma skip_ins_block_equiv b b' : skip_ins_block b b' -> block_equiv b' b.
 Proof.
   intros (Et & Hb). unfold block_equiv, view_equiv, block_view. rewrite <- Et. split; [reflexivity|].
-  rewrite strip_idem. unfold other_of_block.
+  unfold other_of_block.
   destruct (section_type (strip (fst b))).
   - apply data_equiv_ins_skipped. exact Hb.
   - rewrite Hb. reflexivity.
